@@ -139,6 +139,11 @@ func runGo(dir string, args ...string) (string, error) {
 
 // BuildGenlab builds the generator worker against the repository's current working tree.
 func BuildGenlab(repoHash string) (string, error) {
+	srcFile := filepath.Join(VerifDir, "internal/genlab/main.go.txt")
+	if sb, err := os.ReadFile(srcFile); err == nil {
+		h := sha256.Sum256(sb)
+		repoHash += "-" + hex.EncodeToString(h[:4])
+	}
 	bin := filepath.Join(CacheDir(), "genlab-"+repoHash)
 	if _, err := os.Stat(bin); err == nil {
 		return bin, nil
